@@ -204,6 +204,8 @@ func runConc() {
 			b, _ := x25519.EdPublicKeyToX25519(pub2)
 			return append(a, b...)
 		},
+		"Batch/5-nilrand":  func() []byte { return batchResult(ed25519.VerifyBatch(nil, b5.keys, b5.msgs, b5.sigs, b5.opts)) },
+		"Batch/70-nilrand": func() []byte { return batchResult(ed25519.VerifyBatch(nil, b70.keys, b70.msgs, b70.sigs, b70.opts)) },
 		"Batch/70-valid": func() []byte {
 			return batchResult(ed25519.VerifyBatch(hx.NewRng(bseed), b70.keys, b70.msgs, b70.sigs, b70.opts))
 		},
@@ -229,6 +231,23 @@ func runConc() {
 			b, _ := x25519.EdPublicKeyToX25519(pub)
 			return append(a, b...)
 		},
+	}
+	// operations that pass their arguments in buffers the caller REUSES for other values between calls (a result must
+	// depend on the bytes passed, not on the identity of the slice); only used sequentially - the buffers are the harness' own
+	keyBuf, msgBuf, sigBuf := make([]byte, 32), make([]byte, 100), make([]byte, 64)
+	seqOnly := map[string]bool{}
+	for _, v := range []struct {
+		name    string
+		k, m, s []byte
+	}{{"Verify/buf:key1", pub, msg, sig}, {"Verify/buf:key2", pub2, msg, sigKey2}, {"Verify/buf:msg2", pub, msg2, sigMsg2}, {"Verify/buf:key2-sig1", pub2, msg, sig}} {
+		v := v
+		seqOnly[v.name] = true
+		ops[v.name] = func() []byte {
+			copy(keyBuf, v.k)
+			copy(msgBuf, v.m)
+			copy(sigBuf, v.s)
+			return []byte{b2i(ed25519.Verify(keyBuf, msgBuf, sigBuf)), b2i(ed25519.VerifyWithOptions(keyBuf, msgBuf, sigBuf, &ed25519.Options{ZIP215Verify: true}))}
+		}
 	}
 	var names []string
 	for k := range ops {
@@ -336,6 +355,40 @@ func runConc() {
 	}
 
 	// ---- free-running goroutines (run under the race detector by the orchestrator) ---------
+	// Option objects SHARED by all goroutines and never used before (a library that writes into the caller's Options, e.g. to
+	// memoise something on first use, races exactly then)
+	shCtx := &ed25519.Options{Context: "shared-context"}
+	shPh := &ed25519.Options{Hash: crypto.SHA512, Context: "shared-context"}
+	shZip := &ed25519.Options{ZIP215Verify: true}
+	sigShCtx, _ := stdPriv.Sign(nil, digest, &stded.Options{Context: "shared-context"})
+	sigShPh, _ := stdPriv.Sign(nil, digest, &stded.Options{Hash: crypto.SHA512, Context: "shared-context"})
+	ops["Shared/sign-ctx"] = func() []byte { s, _ := priv.Sign(nil, digest, shCtx); return s }
+	ops["Shared/sign-ph"] = func() []byte { s, _ := priv.Sign(nil, digest, shPh); return s }
+	ops["Shared/verify-ctx"] = func() []byte { return []byte{b2i(ed25519.VerifyWithOptions(pub, digest, sigShCtx, shCtx))} }
+	ops["Shared/verify-ph"] = func() []byte { return []byte{b2i(ed25519.VerifyWithOptions(pub, digest, sigShPh, shPh))} }
+	ops["Shared/verify-zip"] = func() []byte { return []byte{b2i(ed25519.VerifyWithOptions(pub, msg, sig, shZip))} }
+	ops["Shared/batch-zip"] = func() []byte {
+		return batchResult(ed25519.VerifyBatch(nil, b70.keys[:5], b70.msgs[:5], b70.sigs[:5], shZip))
+	}
+	shared := []string{"Shared/sign-ctx", "Shared/sign-ph", "Shared/verify-ctx", "Shared/verify-ph", "Shared/verify-zip", "Shared/batch-zip"}
+	// their solo results come from equivalent calls with private Options objects
+	emit("Shared/sign-ctx", "solo", func() []byte { s, _ := priv.Sign(nil, digest, &ed25519.Options{Context: "shared-context"}); return s }())
+	emit("Shared/sign-ph", "solo", func() []byte {
+		s, _ := priv.Sign(nil, digest, &ed25519.Options{Hash: crypto.SHA512, Context: "shared-context"})
+		return s
+	}())
+	emit("Shared/verify-ctx", "solo", []byte{b2i(ed25519.VerifyWithOptions(pub, digest, sigShCtx, &ed25519.Options{Context: "shared-context"}))})
+	emit("Shared/verify-ph", "solo", []byte{b2i(ed25519.VerifyWithOptions(pub, digest, sigShPh, &ed25519.Options{Hash: crypto.SHA512, Context: "shared-context"}))})
+	emit("Shared/verify-zip", "solo", []byte{b2i(ed25519.VerifyWithOptions(pub, msg, sig, &ed25519.Options{ZIP215Verify: true}))})
+	emit("Shared/batch-zip", "solo", batchResult(ed25519.VerifyBatch(nil, b70.keys[:5], b70.msgs[:5], b70.sigs[:5], &ed25519.Options{ZIP215Verify: true})))
+	var concNames []string
+	for _, n := range names {
+		if !seqOnly[n] {
+			concNames = append(concNames, n)
+		}
+	}
+	concNames = append(concNames, shared...)
+	concNames = append(concNames, shared...) // weight
 	G, per := 16, 12
 	if thorough {
 		per = 60
@@ -356,8 +409,12 @@ func runConc() {
 		go func(g int) {
 			defer wg.Done()
 			gr := hx.NewRng(seeds[g])
+			// every goroutine starts with the shared-options operations, so that their FIRST uses are concurrent
 			for i := 0; i < per; i++ {
-				n := names[gr.Intn(len(names))]
+				n := concNames[gr.Intn(len(concNames))]
+				if i < 2 {
+					n = shared[(g+i)%len(shared)]
+				}
 				out[g] = append(out[g], rec{n, ops[n](), g})
 			}
 		}(g)
